@@ -1967,7 +1967,7 @@ int32 matrixUnlockSessionTicket(ssl_t *ssl, unsigned char *in, int32 inLen)
     enc += SSL_HS_MASTER_SIZE;
 
     /* Check lifetime */
-    time = *enc << 24; enc++;
+    time = (uint32_t) *enc << 24; enc++;
     time += *enc << 16; enc++;
     time += *enc << 8; enc++;
     time += *enc; enc++;
